@@ -498,17 +498,73 @@ def witness_fluid(is_gas, env):
     return Fluid("witnessfluid", "gas" if is_gas else "liquid", **props)
 
 
-def concrete_twin_run(spec, env, pipeflow_kwargs, is_gas, build_kwargs=None):
-    """float run of the *real* code (real numpy / scipy) from the same havocked state, one step"""
+def physical_witness(spec, names, pipeflow_kwargs, is_gas, build_kwargs=None):
+    """witness whose state symbols (p, m, msl, T, Tout per identity) carry the values of a *converged float run of the
+    real code* at the nominal inputs: the concolic path then follows the physically consistent branch decisions (flow
+    directions) and numeric refutation works at a point that satisfies the fixed-point hypotheses up to the solver
+    tolerance.  Returns None if the real run does not converge."""
+    import pandapipes as pp
+    from . import nets
+    from pandapipes.idx_node import PINIT, MDOTSLACKINIT, TINIT
+    from pandapipes.idx_branch import MDOTINIT, TOUTINIT
+    fixed, ident, tag = CTX.fixed, CTX.ident, CTX.sym_tag
+    mode_sp = CTX.spsolve_mode
+    env = Witness(dict(names))
+    uninstall()
+    stubs.fix_numba_builtins()
+    try:
+        net, _ = nets.build(spec, nets.concrete_valuer(env), fluid=witness_fluid(is_gas, env), **(build_kwargs or {}))
+        kw = dict(pipeflow_kwargs)
+        kw["use_numba"] = False
+        kw.update(tol_p=1e-9, tol_m=1e-9, tol_res=1e-7, tol_T=1e-8, max_iter_hyd=200, max_iter_therm=200,
+                  max_iter_bidirect=200)
+        try:
+            pp.pipeflow(net, **kw)
+        except Exception as e:   # noqa
+            import os as _os
+            if _os.environ.get("SVX_DEBUG"):
+                print("physical_witness: real run failed: %r" % (e,), flush=True)
+            return None
+        out = dict(names)
+        npit, bpit = net["_pit"]["node"], net["_pit"]["branch"]
+        for i, nm in enumerate(_pit_row_names(net, "node", npit)):
+            out["p[%s]" % nm] = float(npit[i, PINIT])
+            out["T[%s]" % nm] = float(npit[i, TINIT])
+            out["msl[%s]" % nm] = float(npit[i, MDOTSLACKINIT])
+        for i, nm in enumerate(_pit_row_names(net, "branch", bpit)):
+            out["m[%s]" % nm] = float(bpit[i, MDOTINIT])
+            out["Tout[%s]" % nm] = float(bpit[i, TOUTINIT])
+        return Witness(out)
+    finally:
+        install(numba_pyfunc=bool(pipeflow_kwargs.get("use_numba")))
+        CTX.fixed, CTX.ident, CTX.sym_tag = fixed, ident, tag
+        CTX.spsolve_mode = mode_sp
+
+
+def concrete_twin_run(spec, env, pipeflow_kwargs, is_gas, build_kwargs=None, fixed_point=False, record=None):
+    """float run of the *real* code (real numpy / scipy) from the same havocked state, one step.  With fixed_point the
+    linear solve is replaced by a zero update (as in the symbolic fixed-point runs); `record` collects the right-hand
+    sides the real code assembled"""
     import pandapipes as pp
     from . import nets
     fixed, ident, tag = CTX.fixed, CTX.ident, CTX.sym_tag
+    mode_sp = CTX.spsolve_mode
     uninstall()
+    stubs.fix_numba_builtins()
     pf = importlib.import_module("pandapipes.pipeflow")
-    saved = (pf.newton_raphson, pf.finalize_iteration)
+    saved = (pf.newton_raphson, pf.finalize_iteration, pf.spsolve)
+    real_spsolve = pf.spsolve
+
+    def sp(A, b):
+        if record is not None:
+            record.append(np.array(b, dtype=float))
+        if fixed_point:
+            return np.zeros(len(b))
+        return real_spsolve(A, b)
     try:
         pf.newton_raphson = _nr_wrapper
         pf.finalize_iteration = _fin_stub
+        pf.spsolve = sp
         CTX.havoc_value = lambda name: float(env[name])
         net, _ = nets.build(spec, nets.concrete_valuer(env), fluid=witness_fluid(is_gas, env),
                             **(build_kwargs or {}))
@@ -520,12 +576,13 @@ def concrete_twin_run(spec, env, pipeflow_kwargs, is_gas, build_kwargs=None):
         return net, exc
     finally:
         CTX.havoc_value = None
-        pf.newton_raphson, pf.finalize_iteration = saved
+        pf.newton_raphson, pf.finalize_iteration, pf.spsolve = saved
         install(numba_pyfunc=bool(pipeflow_kwargs.get("use_numba")))
         CTX.fixed, CTX.ident, CTX.sym_tag = fixed, ident, tag
+        CTX.spsolve_mode = mode_sp
 
 
-def validate_against_impl(spec, p, pipeflow_kwargs, is_gas, rtol=1e-6, build_kwargs=None):
+def validate_against_impl(spec, p, pipeflow_kwargs, is_gas, rtol=1e-6, build_kwargs=None, fixed_point=False):
     """compare every res_* cell: symbolic term evaluated at the witness vs. float run of the real
     code at the witness.  Returns (cells compared, list of mismatches)."""
     from .evalterm import evaluate, EvalError
@@ -537,10 +594,24 @@ def validate_against_impl(spec, p, pipeflow_kwargs, is_gas, rtol=1e-6, build_kwa
     env = p.witness
     funcs = witness_funcs()
     snet = p.value
-    cnet, exc = concrete_twin_run(spec, env, pipeflow_kwargs, is_gas, build_kwargs)
+    rec = []
+    cnet, exc = concrete_twin_run(spec, env, pipeflow_kwargs, is_gas, build_kwargs, fixed_point=fixed_point, record=rec)
     if exc is not None:
         return 0, ["concrete twin raised %r" % exc]
     n, bad = 0, []
+    # right-hand sides (residual rows) the real float code assembled vs. the symbolic rows evaluated at the witness
+    for k, (s_, bf) in enumerate(zip(p.systems, rec)):
+        if len(bf) != s_["n"]:
+            bad.append("system %d: %d rows in the float run, %d symbolically" % (k, len(bf), s_["n"]))
+            continue
+        for r in range(s_["n"]):
+            try:
+                bv = evaluate(_t(s_["b"][r]), env, funcs)
+            except (EvalError, ZeroDivisionError, ValueError, OverflowError):
+                continue
+            n += 1
+            if math.isnan(bf[r]) or abs(bv - bf[r]) > rtol * (1 + abs(bv) + abs(bf[r])):
+                bad.append("system %d row %d: %r (term) vs %r (float run)" % (k, r, bv, bf[r]))
     for key in [k for k in snet.keys() if isinstance(k, str) and k.startswith("res_")]:
         st, ct = snet[key], cnet[key] if key in cnet else None
         if ct is None or not hasattr(st, "columns"):
